@@ -21,6 +21,7 @@ import (
 	crand "crypto/rand"
 	"encoding/json"
 	"fmt"
+	"github.com/cronokirby/saferith"
 	"math/rand"
 	"os"
 	"os/exec"
@@ -485,7 +486,7 @@ type plannedCase struct {
 	c     malCase
 	msg   *protocol.Message
 	subst map[int]*protocol.Message // honest messages of the remainder that are replaced as well (crafted cases)
-	full  func() caseResult          // crafted cases that need the whole session live (all honest parties see the same forged broadcast)
+	full  func() caseResult         // crafted cases that need the whole session live (all honest parties see the same forged broadcast)
 }
 
 func malCloneMsg(m *protocol.Message) *protocol.Message {
@@ -963,7 +964,102 @@ func craftedCases(s *scenario, seed int64, trace []*protocol.Message, m *robustM
 		return caseResult{Obs: J{"can": true, "full": true, "completed": ok, "note": note,
 			"s0": snap{Culprits: []string{}}, "s1": snap{Culprits: []string{}}, "s2": snap{Culprits: []string{}}}}
 	}
-	return []plannedCase{{c: c, msg: mb, full: full}}
+	cases := []plannedCase{{c: c, msg: mb, full: full}}
+	if hc := craftedHighDegree(s, seed, trace, m, b, bi); hc != nil {
+		cases = append(cases, *hc)
+	}
+	return cases
+}
+
+// craftedHighDegree: sender b deals a polynomial of degree t+1 (one coefficient too many, k*G for a fixed k) and sends
+// every recipient the share that matches it (honest share + k*x^2): the commitment, its Schnorr proof and every share
+// check hold; only the degree is wrong. An honest party must end the session cleanly (round 2 refuses the degree).
+func craftedHighDegree(s *scenario, seed int64, trace []*protocol.Message, m *robustMaterial, b party.ID, bi int) *plannedCase {
+	root, used, err := parseCBOR(trace[bi].Data, 0)
+	if err != nil || used != len(trace[bi].Data) {
+		return nil
+	}
+	k := m.group.NewScalar().SetNat(new(saferith.Nat).SetUint64(0x5eed))
+	kG, _ := k.ActOnBase().MarshalBinary()
+	var paths []cpath
+	root.walk("$", nil, 0, 8, &paths)
+	okB := false
+	for _, p := range paths {
+		if p.path == "$.Phi_i" && p.node.embed && len(p.node.prefix) == 4 {
+			for _, q := range paths {
+				if q.path == "$.Phi_i<cbor>.Coefficients" && len(q.node.kids) == 2 && q.node.kids[1].major == 2 {
+					extra := q.node.kids[1].clone()
+					extra.data = kG
+					q.node.kids = append(q.node.kids, extra)
+					p.node.prefix = []byte{0, 0, 0, 3}
+					okB = true
+				}
+			}
+		}
+	}
+	if !okB {
+		return nil
+	}
+	forgedB := root.encode()
+	shareFor := func(x *protocol.Message, to party.ID) []byte {
+		r3, u3, e3 := parseCBOR(x.Data, 0)
+		if e3 != nil || u3 != len(x.Data) {
+			return nil
+		}
+		var ps []cpath
+		r3.walk("$", nil, 0, 8, &ps)
+		for _, p := range ps {
+			if p.path == "$.F_li" && p.node.major == 2 {
+				f := m.group.NewScalar()
+				if f.UnmarshalBinary(p.node.data) != nil {
+					return nil
+				}
+				xs := to.Scalar(m.group)
+				add := m.group.NewScalar().Set(xs).Mul(xs).Mul(k)
+				nb, _ := f.Add(add).MarshalBinary()
+				p.node.data = nb
+				return r3.encode()
+			}
+		}
+		return nil
+	}
+	c := malCase{Scn: s.name, State: 0, Target: bi, From: hx([]byte(b)), Round: 2, Bcast: true, Kind: "crafted",
+		Path: "$.Phi_i<cbor>.Coefficients + round 3 $.F_li", Mal: "degree-t+1-polynomial-with-matching-shares", Node: "array"}
+	mb := malCloneMsg(trace[bi])
+	mb.Data = forgedB
+	full := func() caseResult {
+		var echo []byte
+		forge := func(x *protocol.Message, to party.ID) *protocol.Message {
+			if x.From != b {
+				if x.RoundNumber == 3 && echo == nil && x.BroadcastVerification != nil {
+					echo = append([]byte{}, x.BroadcastVerification...)
+				}
+				return x
+			}
+			y := malCloneMsg(x)
+			switch {
+			case x.RoundNumber == 2 && x.Broadcast:
+				y.Data = forgedB
+			case x.RoundNumber == 3 && !x.Broadcast:
+				if d := shareFor(x, to); d != nil {
+					y.Data = d
+				}
+			}
+			return y
+		}
+		s.recordFiltered(seed, forge)
+		captured := echo
+		_, ok, note := s.recordFiltered(seed, func(x *protocol.Message, to party.ID) *protocol.Message {
+			y := forge(x, to)
+			if x.From == b && x.RoundNumber == 3 && captured != nil {
+				y.BroadcastVerification = captured
+			}
+			return y
+		})
+		return caseResult{Obs: J{"can": true, "full": true, "completed": ok, "note": note,
+			"s0": snap{Culprits: []string{}}, "s1": snap{Culprits: []string{}}, "s2": snap{Culprits: []string{}}}}
+	}
+	return &plannedCase{c: c, msg: mb, full: full}
 }
 
 // budget: how many of the planned cases of a scenario are run. The fast protocols are run in full in the thorough
